@@ -179,6 +179,7 @@ fn c17_to_insn_vec_index() {
     assert!(v[k].src == g.src);
     assert!(v[k].off == g.off);
     assert!(v[k].imm == g.imm);
+    assert!(v[k] == g);
     // and it re-encodes to the program bytes
     let back = v[k].to_array();
     let mut i = 0;
